@@ -204,6 +204,7 @@ def shards(tier, seed):
     out = [('bfs', tier, d, si) for d in docs for si in sel_idx]
     out += [('api', tier, d, k, 4) for d in docs for k in range(4)]
     out += [('edit', tier, d) for d in docs]
+    out += [('xmlns-sequences', tier, 'x')]
     return out
 
 
@@ -462,7 +463,16 @@ def run_shard(desc):
     from .. import common
     sv = common.bind()
     res = shard.Result()
-    if desc[0] == 'edit':
+    if desc[0] == 'xmlns-sequences':
+        # call sequences WITHOUT purge on namespaced XML, with maps that share keys, and with ONE dict object re-bound between calls:
+        # every answer must be the answer for the arguments as they are at that moment (layer shared with C03)
+        from . import c03
+        c03.run_xmlns(sv, res)
+        for f in res.failures:
+            f['case']['layer'] = 'xmlns'
+        res.count('transitions', res.evaluations)
+        res.count('states', 1)
+    elif desc[0] == 'edit':
         run_edits(sv, desc[1], desc[2], res)
     elif desc[0] == 'bfs':
         run_bfs(sv, desc[1], desc[2], desc[3], res)
@@ -474,6 +484,9 @@ def run_shard(desc):
 def replay(case):
     from .. import common
     sv = common.bind()
+    if case['layer'] == 'xmlns':
+        from . import c03
+        return c03.replay(case)
     spec = documents()[case['doc']]
     if case['layer'] == 'bfs':
         si = case.get('si', SELECTORS.index(case['selector']))
